@@ -163,7 +163,21 @@ theorem C01_step_basic (d : DF) (s : Step) (h : Inv d) (hs : s.WF d.eval.cols)
     · refine inv_of_ready_select _ hi hr (List.zipWith (fun c n => (n, Expr.col c)) d.eval.cols names) ?_ _ rfl
       rw [zipWith_names _ _ hs.1]; exact hs.2
   | dropna howAll thresh sub => simp [Step.isDropna] at hb
-  | unpivot ids vals var val => simp [Step.inTheorem] at hin
+  | unpivot ids vals var val =>
+    have hop : Op.select ≠ Op.noOp := by decide
+    obtain ⟨hi, he⟩ := enter_inv .select d h
+    obtain ⟨_, _, hnd⟩ := hs
+    have hU : (unpivotTable d.eval ids vals var val).WF := by
+      refine ⟨hnd, ?_⟩
+      intro r hr
+      simp only [unpivotTable, List.mem_flatMap, List.mem_map] at hr
+      obtain ⟨v, _, x, _, rfl⟩ := hr
+      simp [unpivotTable]
+    let U := unpivotTable d.eval ids vals var val
+    have hf : Fresh ({ src := U, blk := { sel := identSel U.cols }, last := (enter .select d).last } : DF) :=
+      ⟨hU, rfl, rfl, rfl, rfl, rfl⟩
+    simp only [DF.apply, tag_unpivot, wrapper_eq _ hop, specStep, unpivotDistinct, Bool.false_eq_true, if_false, he]
+    exact ⟨fresh_eval _ (hf.setLast _), (hf.setLast _).inv, fun _ => by simp⟩
 
 /-- `dropna`: its body runs three decorated calls (select-append of the helper column, where, re-select);
     each is an instance of `C01_step_basic`, and their composition is the null-count filter. -/
@@ -302,7 +316,7 @@ theorem C01_run (steps : List Step) : ∀ (d : DF), Inv d → StepsWF d.eval ste
 
 /-- **C01 (proved part).** For every well-formed input table, every chain — of any length, in any
     order — of where / select / withColumn / withColumnRenamed / drop / toDF / distinct / orderBy / limit /
-    fillna / replace / dropna steps that PySpark accepts, the SQL pipeline sqlframe builds evaluates (under Core/Sql's
+    fillna / replace / dropna / unpivot steps that PySpark accepts, the SQL pipeline sqlframe builds evaluates (under Core/Sql's
     clause order) to exactly the table obtained by applying the steps one after another. -/
 theorem C01_partial (T : Table) (steps : List Step) (hT : T.WF) (hs : StepsWF T steps)
     (hsc : noAdjacentOrderBy steps = true) (hin : steps.all Step.inTheorem = true) :
@@ -353,8 +367,8 @@ example : ((DF.init exTable).run exSteps).eval = { cols := ["x", "z"], rows := [
 /-! ### the full statement, for the record
 
 C01 as given quantifies over *all* single-input transformations.  `C01_partial` proves it for the
-twelve step kinds above.  Not covered by a theorem (they are exercised only by the correspondence
-stream, implementation vs executable specification): `unpivot` (modelled, `Step.inTheorem = false`),
+thirteen step kinds above.  Not covered by a theorem (they are exercised only by the correspondence
+stream, implementation vs executable specification): 
 `dropDuplicates(subset)`, `groupBy().agg()` as a step (see C06), expression order keys, and the
 tie order of a second `orderBy` (see `C01_orderBy_twice`). -/
 def C01_full_statement : Prop :=
